@@ -8,6 +8,7 @@ from ..util import params, find_calls, assigns_to, trace, stmt_of, has_exit, syn
 from ..cfg import handler_names, is_catch_all
 from ..settype import Kinds, iterations, classify_sinks
 from . import c01, c06
+from .. import feat
 
 SF = "insights.core.spec_factory"
 SD = "insights.core.serde"
@@ -357,6 +358,46 @@ def r9_line_separator(cx):
                construct=short(wide[0]) if wide else "%d line-feed based splits" % len(per_line))
 
 
+def _codec(x):
+    return (x or "").lower().replace("_", "-").replace("utf8", "utf-8")
+
+
+def r9b_codec_and_location(cx):
+    """Same bytes, same place: the loader decodes with the codec the writer encoded with ('utf-8-sig' swallows a leading U+FEFF that 'utf-8' wrote), and the
+    location it opens is the recorded relative path with nothing but leading slashes removed (lstrip takes a *character set*: './' also eats the dot of '.config')."""
+    cx.rule("C11.R9", "the loader splits persisted content on the separator the writer joined it with", floor=2)
+    sf = cx.repo.module(SF)
+    wr = sf.func("ContentProvider.write", "C11.R9")
+    encs = [x for x in ast.walk(wr) if isinstance(x, ast.Call) and call_attr(x) == "encode"]
+    wcodec = None
+    for x in encs:
+        a0 = x.args[0] if x.args else kwarg(x, "encoding")
+        wcodec = const_str(feat.resolve_const(sf, wr, a0)) if a0 is not None else "utf-8"
+    enc = None
+    for st in sf.tree.body:
+        if isinstance(st, ast.Assign) and isinstance(st.targets[0], ast.Tuple) and "encoding" in [U(e) for e in st.targets[0].elts]:
+            i = [U(e) for e in st.targets[0].elts].index("encoding")
+            v = st.value.body if isinstance(st.value, ast.IfExp) else st.value
+            if isinstance(v, ast.Tuple) and len(v.elts) > i:
+                enc = (st, const_str(v.elts[i]))
+        elif isinstance(st, ast.Assign) and any(U(t) == "encoding" for t in st.targets):
+            v = st.value.body if isinstance(st.value, ast.IfExp) else st.value
+            enc = (st, const_str(v))
+    if enc is None or wcodec is None:
+        cx.unknown(wr, "cannot read the writer's codec / the module-level 'encoding' the loaders open files with")
+    else:
+        cx.require(_codec(enc[1]) == _codec(wcodec), enc[0], "files are read back with the codec they were written with", construct="write: encode(%r); read: encoding=%r" % (wcodec, enc[1]))
+    n = 0
+    for c in [x for x in sf.tree.body if isinstance(x, ast.ClassDef)]:
+        for a in [y for y in ast.walk(c) if isinstance(y, ast.Assign) and any(U(t) == "self.relative_path" for t in y.targets)]:
+            for call in [z for z in ast.walk(a.value) if isinstance(z, ast.Call) and call_attr(z) in ("lstrip", "strip", "rstrip")]:
+                n += 1
+                arg = const_str(feat.resolve_const(sf, enclosing_function(a), call.args[0])) if call.args else None
+                cx.require(arg == "/" and call_attr(call) == "lstrip", a, "%s: the relative path keeps every character but leading slashes (the loader looks where the writer stored)" % c.name, construct=short(a, 80))
+    if n == 0:
+        cx.unknown(sf.tree.body[0], "no provider normalises its relative path any more")
+
+
 def r8_no_recollect(cx):
     cx.rule("C11.R8", "specs loaded from the archive are not collected again", floor=3)
     dr = cx.repo.module("insights.core.dr")
@@ -407,3 +448,4 @@ def run(cx):
     cx.guard(r7_order)
     cx.guard(r8_no_recollect)
     cx.guard(r9_line_separator)
+    cx.guard(r9b_codec_and_location)
